@@ -398,6 +398,9 @@ def plan_for(prop, tier, seed, replay_file=None):
         big = dict(MaxAnns=10, MaxRes=3, MaxData=10, MaxSets=2, MaxKeys=4)
         find = [gen_job('find_p10', 'core', 10, depth=1, size='v', style=seed % 5, reads=['finddata'], **big),
                 gen_job('find_p5', 'remove', 5, depth=1, size='v', style=(seed + 1) % 5, reads=['finddata'], **big),
+                # several data items under one key, removed one by one in every order
+                gen_job('kdm_p19', 'remove', 19, depth=2 if tier == 'quick' else 3, style=(seed + 2) % 5, sample_mod=1 if tier == 'quick' else 3, **big),
+                gen_job('kdm_find_p19', 'remove', 19, depth=2, style=(seed + 2) % 5, reads=['finddata'], **big),
                 gen_job('loose_w1', 'core', 1, depth=2, size='w', style=(seed + 3) % 5, sample_mod=8 if tier == 'quick' else 1, **big),
                 gen_job('find_w1', 'core', 1, depth=1, size='w', style=(seed + 4) % 5, reads=['finddata'], **big),
                 gen_job('find_v1', 'core', 1, depth=1 if tier == 'quick' else 2, size='v', style=(seed + 2) % 5, reads=['finddata'], **big)]
@@ -428,7 +431,9 @@ def plan_for(prop, tier, seed, replay_file=None):
         return dict(jobs=store_jobs(prop, tier, seed) + extra, rule=STORE_RULE, assumptions=STORE_ASSUMPTIONS)
     if prop == 'C02':
         # annotations that list the same data item twice
-        extra = [gen_job('remove_p14', 'remove', 14, depth=2 if tier == 'quick' else 3, style=(seed + 2) % 5, MaxAnns=10, MaxRes=2, MaxData=4)]
+        extra = [gen_job('remove_p14', 'remove', 14, depth=2 if tier == 'quick' else 3, style=(seed + 2) % 5, MaxAnns=10, MaxRes=2, MaxData=4),
+                 # a key without data that annotations target
+                 gen_job('remove_p18', 'remove', 18, depth=2 if tier == 'quick' else 3, style=(seed + 3) % 5, MaxAnns=10, MaxRes=2, MaxData=4, MaxKeys=5)]
         return dict(jobs=store_jobs(prop, tier, seed) + extra, rule=STORE_RULE, assumptions=STORE_ASSUMPTIONS)
     if prop in ('C01', 'C02'):
         return dict(jobs=store_jobs(prop, tier, seed), rule=STORE_RULE, assumptions=STORE_ASSUMPTIONS)
